@@ -42,6 +42,10 @@ def case_strategy(draw):
     }
 
 
+def prepare(tier):
+    lib.install_assd_snap()
+
+
 def searches(tier):
     return [("fragments", case_strategy(), BUDGET[tier])]
 
